@@ -7,7 +7,7 @@ patch is applied to /repo (and undone straight afterwards)."""
 import json, os, re, shutil, subprocess, sys
 pid, k = sys.argv[1], sys.argv[2]
 checks = sys.argv[3:] or [pid]
-src = f"/tmp/mutout/{pid}/mut{k}"
+src = f"{os.environ.get('MUTOUT', '/tmp/mutout')}/{pid}/mut{k}"
 wt = f"/tmp/mut/{pid}"
 env = dict(os.environ, PYTHONPATH=f"{wt}/src")
 
@@ -27,7 +27,7 @@ print("tests:", tests, "| demo with change rc =", rc_demo_mut, "| demo without r
 ok = ("60 passed" in tests) and rc_demo_mut != 0 and rc_demo_clean == 0
 if not ok:
     print("NOT CONFIRMED"); sys.exit(1)
-dst = f"/verif/seeded/{pid}-m{k}"
+dst = f"/verif/seeded/{pid}-{os.environ.get('MUTTAG', 'm')}{k}"
 os.makedirs(dst, exist_ok=True)
 for f in ("patch.diff", "demo.py", "note.txt"):
     shutil.copy(f"{src}/{f}", dst)
